@@ -1294,6 +1294,88 @@ func runMulti(k int, sc Scn, r *vh.Rand) (res Res) {
 	return res
 }
 
+// runPending: Server.Close while sc.Pairs Listeners (made with ListenContext and a context of
+// their own, so that only the Server can stop them) still wait in the Server's new queue: the
+// event thread is parked in a slow callback when they are added and released once Close has
+// cancelled the context.  After Close returned every Listener must be done, inactive, its
+// socket closed, no goroutine left; a Listener left behind panics later (child crash).
+func runPending(k int, sc Scn, r *vh.Rand) (res Res) {
+	res.K, res.Returned, res.Extra = k, true, map[string]int{}
+	fail := func(what, key string) { res.Fails = append(res.Fails, failRec{what, key}) }
+	base := runtime.NumGoroutine()
+	srv := c2.NewServer(logx.NOP)
+	srv.Keys.Fill()
+	p := cfg.Static{L: com.TCP}
+	first, err := srv.Listen("first", "127.0.0.1:0", p)
+	if err != nil {
+		panic("listen: " + err.Error())
+	}
+	for i := 0; c2.VerifC16NewLen(srv) > 0 && i < 1000; i++ {
+		time.Sleep(time.Millisecond)
+	}
+	started, release := make(chan struct{}), make(chan struct{})
+	c2.VerifC16Park(srv, started, release)
+	if !waitCh(started, 3*time.Second) {
+		panic("the event thread never ran the parking callback")
+	}
+	all := []*c2.Listener{first}
+	for i := 0; i < sc.Pairs; i++ {
+		l, err := srv.ListenContext(context.Background(), fmt.Sprintf("p%d", i), "127.0.0.1:0", p)
+		if err != nil {
+			panic("listen: " + err.Error())
+		}
+		all = append(all, l)
+	}
+	var addrs []string
+	for _, l := range all {
+		addrs = append(addrs, l.Address())
+	}
+	done := make(chan struct{})
+	go func() { srv.Close(); close(done) }()
+	for i := 0; !c2.VerifC16Cancelled(srv) && i < 3000; i++ {
+		time.Sleep(time.Millisecond)
+	}
+	close(release)
+	if !waitCh(done, 5*time.Second) {
+		res.Returned = false
+		fail(fmt.Sprintf("Server.Close with %d Listeners pending in the new queue did not return within 5 s", sc.Pairs), "pending-close-hang")
+	} else {
+		for i, l := range all {
+			select {
+			case <-l.Done():
+			default:
+				fail(fmt.Sprintf("Server.Close returned, but Listener %d of %d (pending in the new queue at Close) is not done (IsActive=%t)", i, len(all), l.IsActive()), "pending-listener-left")
+				continue
+			}
+			if l.IsActive() {
+				fail("a Listener is done but still active after Server.Close", "pending-listener-active")
+			}
+			if cn, err := net.DialTimeout("tcp", addrs[i], 300*time.Millisecond); err == nil {
+				cn.Close()
+				fail(fmt.Sprintf("the socket of Listener %d still accepts connections after Server.Close", i), "pending-socket-open")
+			}
+		}
+		if !waitCh(srv.Done(), time.Second) {
+			fail("Server.Wait/Done not released after Close", "server-wait")
+		}
+	}
+	if len(res.Fails) > 0 {
+		// stop what was left behind (this is where a forgotten Listener sends on the closed channel)
+		cl := make(chan struct{})
+		go func() {
+			defer func() { recover(); close(cl) }()
+			for _, l := range all {
+				l.Close()
+			}
+		}()
+		waitCh(cl, 3*time.Second)
+	}
+	if n := settleGoroutines(base, 2*time.Second); n > base && res.Returned {
+		fail(fmt.Sprintf("goroutines did not return to the baseline after Server.Close with %d pending Listeners: %d > %d", sc.Pairs, n, base), "goroutine-baseline-pending")
+	}
+	return res
+}
+
 // ---------------------------------------------------------------- scenario generation
 
 var instants = []string{"registered", "idle", "queued-client", "queued-server", "queued-both", "fragments", "mid-exchange"}
@@ -1381,6 +1463,9 @@ func gen(r *vh.Rand, tier string) []Scn {
 	}
 	add(Scn{Kind: "multi", Instant: "listeners", Pairs: 3, Cbk: true, Phases: [][]int{{cSrvClose, cSrvClose}}})
 	add(Scn{Kind: "multi", Instant: "listeners", Pairs: 5, Cbk: true, Phases: [][]int{{cCtxCancel}, {cSrvClose}}})
+	for _, n := range []int{0, 1, 2, 3, 4, 2, 3, 4} {
+		add(Scn{Kind: "pending", Instant: "listeners-pending", Pairs: n, Phases: [][]int{{cSrvClose}}})
+	}
 	add(Scn{Kind: "replace-storm", Instant: "listener", Pairs: 40})
 	add(Scn{Kind: "fresh", Variant: "never-listened", Phases: [][]int{{cSrvClose}}})
 	add(Scn{Kind: "fresh", Variant: "never-listened", Phases: [][]int{{cSrvClose, cSrvClose, cSrvClose, cSrvClose}, {cSrvClose}}})
@@ -1530,6 +1615,8 @@ func childMain(file string, from int, seed uint64) {
 			res = runFresh(k, scs[k], r)
 		} else if scs[k].Kind == "replace" {
 			res = runReplace(k, scs[k], r)
+		} else if scs[k].Kind == "pending" {
+			res = runPending(k, scs[k], r)
 		} else if scs[k].Kind == "multi" {
 			res = runMulti(k, scs[k], r)
 		} else if scs[k].Kind == "proxy" {
@@ -1733,6 +1820,9 @@ func main() {
 			return true
 		}() {
 			out.Add(fmt.Sprintf("CLsn %s %s %s %s", phasesCoq(sc.Phases), coqBool(res.Panic), coqBool(res.Returned), vh.ZList64(res.Final)), classOf(sc), nontrivial, desc)
+		} else if sc.Kind == "pending" {
+			// shutdown adopts ALL Listeners pending in the new queue: the first plus sc.Pairs of them
+			out.Add(fmt.Sprintf("CMulti %s %s", vh.Z(int64(sc.Pairs+1)), coqBool(res.Returned && len(res.Fails) == 0)), classOf(sc), true, desc)
 		} else if sc.Kind == "multi" && len(sc.Phases) == 1 && len(sc.Phases[0]) == 1 && sc.Phases[0][0] != cLsnClose {
 			// Server.Close / context cancel with n Listeners: did the whole teardown finish?
 			out.Add(fmt.Sprintf("CMulti %s %s", vh.Z(int64(sc.Pairs)), coqBool(res.Returned && len(res.Fails) == 0)), classOf(sc), true, desc)
